@@ -87,6 +87,12 @@ ResolveElem(S, f, it, q) ==
 MaxMul(a, b) == IF a = "1" THEN b ELSE IF b = "1" THEN a ELSE IF a = "unb" \/ b = "unb" THEN "unb" ELSE "n"
 Wrapper(min, max) == IF max # "1" THEN "Vec" ELSE IF min = 0 THEN "Option" ELSE "Bare"
 
+\* the XSD builtin a member is declared with ("-" for named types and refs)
+XsdOf(ty) == IF ty.k = "builtin" THEN ty.n ELSE "-"
+\* the integer types of XSD without an upper / lower bound
+UnboundedUp == {"integer", "nonNegativeInteger", "positiveInteger"}
+UnboundedDown == {"integer", "nonPositiveInteger", "negativeInteger"}
+
 \* what a member's value is: a builtin carrier, or the struct generated for a component
 TargetOf(S, f, it, ty) ==
   IF ty.k = "builtin" THEN [k |-> "builtin", rust |-> Carrier(ty.n)]
@@ -107,12 +113,12 @@ Flat(S, f, it, ps, pmin, pmax, inch) ==
   LET p == Head(ps)
       emin(m) == IF pmin = 0 \/ inch THEN 0 ELSE m
   IN (CASE p.k = "el" -> << [xml |-> p.n, attr |-> FALSE, min |-> emin(p.min), max |-> MaxMul(p.max, pmax),
-                             target |-> TargetOf(S, f, it, p.ty), ns |-> f.tns] >>
+                             target |-> TargetOf(S, f, it, p.ty), ns |-> f.tns, xsd |-> XsdOf(p.ty)] >>
         [] p.k = "ref" -> LET e == ResolveElem(S, f, it, p.ref) IN
                           IF e = None THEN << [xml |-> p.ref.n, attr |-> FALSE, min |-> emin(p.min), max |-> MaxMul(p.max, pmax),
-                                               target |-> [k |-> "dangling"], ns |-> "?"] >>
+                                               target |-> [k |-> "dangling"], ns |-> "?", xsd |-> "-"] >>
                           ELSE << [xml |-> e.n, attr |-> FALSE, min |-> emin(p.min), max |-> MaxMul(p.max, pmax),
-                                   target |-> ElemTarget(S, e), ns |-> e.ns] >>
+                                   target |-> ElemTarget(S, e), ns |-> e.ns, xsd |-> "-"] >>
         [] p.k = "seq" -> Flat(S, f, it, p.ps, emin(p.min), MaxMul(p.max, pmax), FALSE)
         [] p.k = "choice" -> Flat(S, f, it, p.ps, pmin, pmax, TRUE)
         [] OTHER -> <<>>)
@@ -120,7 +126,7 @@ Flat(S, f, it, ps, pmin, pmax, inch) ==
 
 AttrMembers(S, f, it, as) ==
   [i \in 1..Len(as) |-> [xml |-> as[i].n, attr |-> TRUE, min |-> IF as[i].use = "req" THEN 1 ELSE 0, max |-> "1",
-                         target |-> TargetOf(S, f, it, as[i].ty), ns |-> "unqualified"]]
+                         target |-> TargetOf(S, f, it, as[i].ty), ns |-> "unqualified", xsd |-> XsdOf(as[i].ty)]]
 
 \* body = a complexType item or the inline type of a global element
 OwnMembers(S, f, it, body) == Flat(S, f, it, body.content, 1, "1", FALSE) \o AttrMembers(S, f, it, body.attrs)
@@ -139,7 +145,7 @@ Members(S, f, it, body, fuel) ==
 ExpFields(S, f, it, body) ==
   LET ms == Members(S, f, it, body, 8) IN
   [i \in 1..Len(ms) |-> [xml |-> ms[i].xml, attr |-> ms[i].attr, w |-> Wrapper(ms[i].min, ms[i].max),
-                         target |-> ms[i].target, ns |-> ms[i].ns]]
+                         target |-> ms[i].target, ns |-> ms[i].ns, xsd |-> ms[i].xsd]]
 
 ---------------------------------------------------------------------------
 (* restricted simple types: the facets that apply to a value (own and inherited through derivation) and one     *)
